@@ -5,9 +5,9 @@
    `dec_connect` is a specification decoder of MQTT 3.1.1 CONNECT written from the standard (it rejects anything that is
    not a valid CONNECT: wrong protocol name/level, reserved flag, will flags without will, password without user name,
    lengths that do not add up, trailing bytes). *)
-From Coq Require Import List ZArith.
+From Coq Require Import List ZArith Bool.
 Import ListNotations.
-From V Require Import Base.Bytes Gen.MqttConsts C17.Model C17.Proofs.
+From V Require Import Base.Bytes Gen.MqttConsts C17.Model C17.Render C17.Proofs.
 Local Open Scope Z_scope.
 
 (* The packed CONNECT is valid MQTT 3.1.1 and decodes to: client id = the GUID in hexadecimal cut to 22 characters,
@@ -58,17 +58,39 @@ Theorem C17_channel_in_range : forall prefix topic ch cmd, grammar prefix topic 
 Proof. exact grammar_channel_range. Qed.
 Print Assumptions C17_channel_in_range.
 
-(* Number rendering.  FULL STATEMENT (C17_number_rendering): for all 64-bit patterns raw, both signednesses and
-   precision 0..20 the string is the exact decimal expansion of value / 10^precision without trailing zeros and has
-   at most 24 characters.  Proved here only for magnitudes below 1000 (both signs) and the 200 largest unsigned
-   values, all precisions 0..20; the general case is covered by the correspondence check against an exact renderer. *)
-Theorem C17_number_rendering_partial : forall u raw prec,
-  0 <= prec <= 20 ->
-  (0 <= raw < 1000 \/ (u = false /\ 18446744073709551616 - 1000 <= raw < 18446744073709551616) \/
-   (u = true /\ 18446744073709551616 - 200 <= raw < 18446744073709551616)) ->
-  prepare_val FIXED u raw prec = render_of_raw u raw prec /\ len (prepare_val FIXED u raw prec) <= 24.
-Proof. exact C17_number_rendering_partial_thm. Qed.
-Print Assumptions C17_number_rendering_partial.
+(* Number rendering.  `render_spec v p` (C17/Render.v) is the specification on unbounded integers: the exact decimal
+   expansion of v / 10^p without trailing zeros in the fraction (sign, digits, at most one dot).  For every 64-bit pattern
+   `raw`, read as unsigned or signed (`value_of`), and every precision 0..20 (call sites use 1, 2, 3, 5):
+   the string written by prepare_val is exactly render_spec; the 25-byte buffer holds it followed by its NUL terminator
+   and untouched cells (nothing is written outside: the buffer keeps its 25 cells and contains every character); the
+   string has at most 24 characters.  Proved through the loop invariants of the three loops (count_phase1/2, digit_steps,
+   zero_fill_spec in C17/Render.v), for all values — no enumeration. *)
+Theorem C17_number_rendering : forall u raw prec,
+  0 <= raw < 18446744073709551616 -> 0 <= prec <= 20 ->
+  let v := value_of u raw in
+  let minus := negb u && ((if raw <? 9223372036854775808 then raw else raw - 18446744073709551616) <? 0) in
+  prepare_val FIXED u raw prec = render_spec v (Z.to_nat prec) /\
+  (exists junk, prepare_buf minus (Z.abs v) (Z.abs v) prec = render_spec v (Z.to_nat prec) ++ 0 :: junk) /\
+  length (prepare_buf minus (Z.abs v) (Z.abs v) prec) = 25%nat /\
+  len (render_spec v (Z.to_nat prec)) <= 24.
+Proof. exact prepare_val_is_render_spec. Qed.
+Print Assumptions C17_number_rendering.
+
+(* ... and the rendering parses back to value / 10^precision: a decimal reader (optional '-', digits, optional '.' and
+   digits) returns mantissa m and scale s with m / 10^s = v / 10^p exactly — for every integer v and every precision. *)
+Theorem C17_rendering_parses_back : forall v p,
+  exists m s, parse_decimal (render_spec v p) = Some (m, s) /\ m * 10 ^ Z.of_nat p = v * 10 ^ s.
+Proof. exact render_parses_back. Qed.
+Print Assumptions C17_rendering_parses_back.
+
+(* independent cross-check of specification and model by complete enumeration: magnitudes below 300 in both signs, the
+   40 largest unsigned values, every precision 0..20 *)
+Example C17_number_rendering_enumerated :
+  forallb (fun p => forallb (fun r => val_ok true r p && val_ok false r p && val_ok false (18446744073709551615 - r) p)
+                            (zrange 300)) (zrange 21) = true /\
+  forallb (fun p => forallb (fun r => val_ok true (18446744073709551615 - r) p) (zrange 40)) (zrange 21) = true.
+Proof. exact (conj val_small_table val_large_table). Qed.
+Print Assumptions C17_number_rendering_enumerated.
 
 (* the unrepaired code *)
 Theorem C17_old_code_refuted :
